@@ -113,3 +113,58 @@ def rand_sorted_index(rng, n, hi):
 
 def exc_name(e):
     return f"{type(e).__name__}: {str(e)[:160]}"
+
+
+def frame_from_cuts(df, cuts):
+    """dask frame (unknown divisions) whose partitions are df.iloc[cuts[i]:cuts[i+1]] — order kept, empty
+    partitions allowed; `cuts` starts at 0 and ends at len(df)"""
+    parts = [df.iloc[a:b] for a, b in zip(cuts, cuts[1:])]
+    return dd().from_map(_Getter(parts), list(range(len(parts))), meta=df.iloc[:0])
+
+
+def rand_cuts(rng, n, maxparts=5, p_empty=0.2):
+    k = rng.randint(1, maxparts)
+    inner = sorted(rng.randint(0, n) for _ in range(k - 1))
+    if rng.random() > p_empty:
+        inner = sorted(set(inner) - {0, n})
+    return [0] + inner + [n]
+
+
+def _unname(x):
+    x = x.copy()
+    x.index = x.index.set_names([None] * x.index.nlevels)
+    return x
+
+
+def same_pandas(got, exp, sort=True, rtol=1e-9, names=True):
+    """None if equal (values, index, column names; dtypes ignored; optional order-insensitive), else a short reason"""
+    import pandas as pd
+    try:
+        if isinstance(exp, pd.DataFrame):
+            if not isinstance(got, pd.DataFrame):
+                return f"type {type(got).__name__} != DataFrame"
+            if sort:
+                got = got.sort_index(kind="stable")
+                exp = exp.sort_index(kind="stable")
+            if not names:
+                got, exp = _unname(got), _unname(exp)
+            pd.testing.assert_frame_equal(got, exp, check_dtype=False, check_index_type=False, check_column_type=False,
+                                          check_categorical=False, check_freq=False, rtol=rtol, check_like=False)
+        elif isinstance(exp, pd.Series):
+            if not isinstance(got, pd.Series):
+                return f"type {type(got).__name__} != Series"
+            if sort:
+                got = got.sort_index(kind="stable")
+                exp = exp.sort_index(kind="stable")
+            if not names:
+                got, exp = _unname(got), _unname(exp)
+            pd.testing.assert_series_equal(got, exp, check_dtype=False, check_index_type=False, check_categorical=False,
+                                           check_freq=False, rtol=rtol, check_names=names)
+        else:
+            if got != got and exp != exp:
+                return None
+            if abs(float(got) - float(exp)) > rtol * max(1.0, abs(float(exp))):
+                return f"{got!r} != {exp!r}"
+        return None
+    except AssertionError as e:
+        return str(e).replace("\n", " ")[:300]
